@@ -59,8 +59,8 @@ def make_generator(name, prog, acl_text, vendor):
     return cls(storage=STORAGE)
 
 
-def old_new(device, gens, no_acl=False):
-    """annet.gen._old_new_per_device with a stub context: empty running config, the given partial generators"""
+def old_new(device, gens, no_acl=False, running_text=None):
+    """annet.gen._old_new_per_device with a stub context: empty (or the given) running config, the given partial generators"""
     from annet import gen
     args = types.SimpleNamespace(no_acl=no_acl, acl_safe=False, fail_on_empty_config=False, profile=False, no_acl_exclusive=False,
                                  generators_context=None, required_packages_check=False, filter_acl="", filter_ifaces=[], filter_peers=[],
@@ -68,7 +68,8 @@ def old_new(device, gens, no_acl=False):
     dg = gen.DeviceGenerators()
     dg.partial[device] = list(gens)
     dg.ref[device] = []
-    ctx = gen.OldNewDeviceContext(config="empty", args=args, downloaded_files={}, failed_files={}, running={}, failed_running={}, no_new=False,
+    ctx = gen.OldNewDeviceContext(config="empty" if running_text is None else "running", args=args, downloaded_files={}, failed_files={},
+                                  running={} if running_text is None else {device: running_text}, failed_running={}, no_new=False,
                                   stdin=None, add_annotations=False, add_implicit=False, do_files_download=False, gens=dg, fetched_packages={},
                                   failed_packages={}, device_count=1, do_print_perf=False)
     filterer = types.SimpleNamespace(for_ifaces=lambda d, i: "", for_peers=lambda d, p: "", for_policies=lambda d, p: "")
